@@ -142,13 +142,28 @@ func runC20(c *Ctx) {
 		}
 		ok := replay != nil && cached != nil && replayDir == "ascending"
 		c.R.Check("A-order", "History.Commit|replay ascending", ok, c.pos(f.Pos()), "the replay of seeked-back heights walks them ascending; the cached changes are committed afterwards")
-		// eviction = a store to h.changes of a re-slice of h.changes
-		var evict *ssa.Store
-		for _, b := range f.Blocks {
-			for _, in := range b.Instrs {
-				if st, isS := in.(*ssa.Store); isS && ssau.IsFieldOf(st.Addr, "History", "changes") {
-					if sl, isSl := st.Val.(*ssa.Slice); isSl && sl.Low != nil {
-						evict = st
+		// eviction = a store to h.changes of a re-slice of h.changes (in Commit, or in a helper of History it calls:
+		// then the call stands for it)
+		evictIn := func(g *ssa.Function) ssa.Instruction {
+			for _, b := range g.Blocks {
+				for _, in := range b.Instrs {
+					if st, isS := in.(*ssa.Store); isS && ssau.IsFieldOf(st.Addr, "History", "changes") {
+						if sl, isSl := st.Val.(*ssa.Slice); isSl && sl.Low != nil {
+							return st
+						}
+					}
+				}
+			}
+			return nil
+		}
+		evict := evictIn(f)
+		if evict == nil {
+			for _, b := range f.Blocks {
+				for _, in := range b.Instrs {
+					if cl, ok := in.(*ssa.Call); ok {
+						if h := cl.Call.StaticCallee(); h != nil && h.Pkg == f.Pkg && h != f && len(h.Blocks) > 0 && evictIn(h) != nil {
+							evict = cl
+						}
 					}
 				}
 			}
